@@ -59,12 +59,20 @@ def check(ctx, report):
         reviewed = json.load(fh).get('C01.R1', {})
     with open(os.path.join(here, 'nondsl.json')) as fh:
         nondsl = json.load(fh)
+    from ..codecs import EVALUATED_CODECS
     for c in model.concrete_parsables():
+        if c.name in EVALUATED_CODECS:
+            # inputs the format has no text for (a DNS label of more than 63 octets): accepted means composable
+            ev = EVALUATED_CODECS[c.name](ctx)
+            report.count('C05.R1', ev.get('runs', 0))
+            if not ev['evaluated']:
+                report.add('C05.R1', '%s@codec[evaluation]' % c.construct, 'the codec left the subset the evaluation understands: %s' % ev['why'])
+            for what, text in sorted(ev.get('acceptance', {}).items()):
+                report.add('C05.R1', '%s@accepted[%s]' % (c.construct, what), text)
         if classify(ctx, c) != 'binary' or c.name in reviewed or c.name in nondsl:
             continue
         cm = compare_class(c, ctx.canon)
         report.count('C05.R1')
-        from ..codecs import EVALUATED_CODECS
         if cm.diffs and c.name in EVALUATED_CODECS:
             # layouts that differ in shape only: both functions evaluated against the wire format (sa/codecs.py, see C01.R1) -
             # what the parser accepted there is what the composer produced
